@@ -551,6 +551,9 @@ func propC10(c *Ctx) {
 					o.Fail(c.W.Pos(exp.Pos()), "exported Bridge record leaves NextL1Sequence unset (0)", c.Dump(p, -1))
 				} else if v.Key() != "1" && !strings.Contains(v.Key(), "Get(k.NextL1Sequences, ctx, "+id+")") {
 					o.Fail(c.W.Pos(exp.Pos()), "Bridge.NextL1Sequence is "+trunc(v.Key(), 120)+", want the getter's value for "+id, c.Dump(p, -1))
+				} else if sv := strip(v); sv.Op == "extract" && sv.Name == "0" && !p.factIs(len(p.Events), "("+sv.Args[0].String()+".1 == nil)", true) {
+					// the stored value counts only when the read succeeded (a not-found read answers 0)
+					o.Fail(c.W.Pos(exp.Pos()), "Bridge.NextL1Sequence is the raw store read "+trunc(v.Key(), 100)+" without its error being nil (0 for a bridge without deposits)", c.Dump(p, -1))
 				}
 			}
 		}
